@@ -14,6 +14,8 @@ def run(model, rep, tier):
     r1_nearest_wins(ctx, rep)
     r2_level_predicate(ctx, rep)
     r3_unit_switches(ctx, rep)
+    from . import robust
+    robust.asserts_have_no_effects(ctx, rep, 'C09.R20', 'C09')
     rep.units['cfg'] = ctx.cfg_stats
 
 
